@@ -161,7 +161,7 @@ mod c17 {
         kani::cover!(e.check_ok && e.lead_ok && e.flag_ok && !e.groups_ok, "good check digit, a digit group out of range");
     }
 
-    // TIER: thorough
+    // TIER: quick!   (5 minutes of CBMC, kept in the quick tier: it is THE decision of "codes with a wrong check digit or out-of-range fields are refused")
     // KIND: complete (all 10^11 strings of 11 decimal digits; 11 is the fixed length of the format)
     #[kani::proof]
     #[kani::unwind(14)]
